@@ -1,4 +1,5 @@
 import AC.Props.C06
+import AC.TextCompose
 open AC.Props.C06
 #print axioms C06_passes_ok
 #print axioms C06_dangling_refused
@@ -13,3 +14,5 @@ open AC.Props.C06
 #print axioms C06_chain_readback
 #print axioms C06_ops_readback
 #print axioms C06_script_reloads
+#print axioms P.TextCompose.C06_script_reloads_inst
+#print axioms P.TextCompose.C06_script_reloads_state
